@@ -383,3 +383,28 @@ def seg_last_ok(ex, st, el, obj):
     flag = ex.H(pre, 'f.Segment.allow_infinite_children')[e]
     return SV(z3.And(z3.Or(new[e] == old[e], z3.And(flag, Val.is_VStr(nm), ln > 0, new[e] == n, n > old[e])),
                      z3.ForAll([a], z3.Implies(a != e, new[a] == old[a]))), BOOL)
+
+
+@specfunc('child_at')
+def child_at(ex, st, elist, name, index):
+    """spec twin of ElementList.child_at_index"""
+    el = SV(ex.H(st, 'f.ElementList.element')[elist.term], ObjT('Element'))
+    up = ex.str_upper(name)
+    cn = canon(ex, st, el, up)
+    raw = finder(ex, st, elist, name, index)
+    cnm = finder(ex, st, elist, cn, index)
+    same = ex.eq(st, cn, name)
+    same = same if not isinstance(same, bool) else z3.BoolVal(same)
+    return SV(z3.If(same, raw.term, cnm.term), Opt(ObjT('Element')))
+
+
+@specfunc('proxies_ok')
+def proxies_ok(ex, st, elist):
+    """I8: every cached proxy belongs to this list and stands for the (upper-cased) key it is cached under"""
+    a = elist.term
+    P = ex.H(st, 'f.ElementList.proxies')[a]
+    k = z3.FreshConst(StrS, 'pk')
+    pr = ex.H(st, 'Dv.R')[P][k]
+    return SV(z3.ForAll([k], z3.Implies(ex.H(st, 'Dd')[P][k],
+                                        z3.And(pr > 0, ex.H(st, 'f.ElementProxy.element_list')[pr] == a,
+                                               ex.H(st, 'f.ElementProxy.element_name')[pr] == ex.f_upper()(k)))), BOOL)
